@@ -17,6 +17,8 @@ CFG_TIMED = {"max_incomplete": 4, "auth_timeout": 1000, "max_message_size": MAXM
 CFG_CLOSE = {"max_incomplete": 64, "auth_timeout": 120000, "max_message_size": MAXMSG, "fresh_daemon": 1}   # one daemon per script: unique names are predictable
 CFG_SLOTS = {"max_incomplete": 64, "auth_timeout": 120000, "max_message_size": MAXMSG, "fresh_daemon": 1,
              "extra_limits": {"max_connections_per_user": 7, "max_match_rules_per_connection": 4}}    # 4 bystanders + 3 hostile slots
+CFG_ACT = {"max_incomplete": 64, "auth_timeout": 120000, "max_message_size": MAXMSG, "fresh_daemon": 1, "services": 1,
+           "extra_limits": {"service_start_timeout": 900}}     # c10.act.fail exits 1 after 300 ms, c10.act.hang never claims its name
 FIRST_UNIQUE = 4          # on a fresh daemon of the run: :1.0 monitor, :1.1/:1.2 the pair, :1.3 the observer
 CFG_QUOTA = {"max_incomplete": 64, "auth_timeout": 120000, "max_message_size": MAXMSG, "extra_limits": {"max_outgoing_bytes": 200000}}
 
@@ -665,6 +667,89 @@ def gen_slots(rnd):
     return d
 
 
+def start_service(serial, name):
+    return Msg(METHOD_CALL, 0, serial, {F_PATH: "/org/freedesktop/DBus", F_MEMBER: "StartServiceByName", F_INTERFACE: DRIVER, F_DESTINATION: DRIVER}, "su", (name, 0))
+
+
+def gen_activation(rnd, shape=None):
+    """abrupt close while an activation is in progress: several requesters (auto-starting calls with and without reply expected,
+    StartServiceByName) wait for a service whose Exec fails after 300 ms / never claims its name (start timeout 900 ms) / is claimed
+    by one of the script's connections; some of them close (or are closed) before the outcome."""
+    s = Script("activation", CFG_ACT, rnd)
+    n = rnd.randint(2, 4)
+    conns = [s.conn() for _ in range(n)]
+    ev = []
+    for c in conns:
+        ev += ["C%d" % c, "W%d:%s" % (c, (AUTH_OK + hello().encode()).hex())]
+    alive = list(conns)
+
+    def w(c, m):
+        ev.append("W%d:%s" % (c, (m if isinstance(m, bytes) else m.encode()).hex()))
+
+    def request(c, name):
+        k = rnd.random()
+        if k < 0.4:
+            w(c, Msg(METHOD_CALL, 0, s.next_serial(), {F_PATH: "/a", F_INTERFACE: "c10.A", F_MEMBER: "M", F_DESTINATION: name}, "s", (s.canary().decode(),)))
+        elif k < 0.55:
+            w(c, Msg(METHOD_CALL, 1, s.next_serial(), {F_PATH: "/a", F_INTERFACE: "c10.A", F_MEMBER: "M", F_DESTINATION: name}))      # no reply expected
+        elif k < 0.65:
+            w(c, Msg(SIGNAL, 0, s.next_serial(), {F_PATH: "/a", F_INTERFACE: "c10.A", F_MEMBER: "S", F_DESTINATION: name}))            # a directed signal auto-starts too
+        elif k < 0.72:
+            w(c, Msg(METHOD_CALL, 2, s.next_serial(), {F_PATH: "/a", F_INTERFACE: "c10.A", F_MEMBER: "M", F_DESTINATION: name}))      # NO_AUTO_START: plain error
+        else:
+            w(c, start_service(s.next_serial(), name))
+
+    def leave(c):
+        # plain closes only: while an activation is pending the babysitter process holds a copy of every client socket that was
+        # open when it was forked, so a client DROPPED BY THE BUS sees EOF only when the babysitter exits (see notes, C10-D2);
+        # that wait would make the script's clock drift from the model's
+        if c in alive:
+            alive.remove(c)
+            ev.append("X%d" % c)
+    shape = shape or rnd.choice(("fail", "fail", "hang", "both", "success", "success"))
+    names = {"fail": ["c10.act.fail"], "hang": ["c10.act.hang"], "both": ["c10.act.fail", "c10.act.hang"], "success": ["c10.act.hang"]}[shape]
+    for nm in names:
+        for c in rnd.sample(conns, rnd.randint(1, n)):
+            for _ in range(rnd.choice((1, 1, 2))):
+                request(c, nm)
+    # who goes before the outcome: sometimes nobody, often the first requester, sometimes everybody
+    k = rnd.random()
+    for c in (conns[:1] if k < 0.5 else conns if k < 0.65 else rnd.sample(conns, rnd.randint(0, n - 1))):
+        leave(c)
+    if shape == "success":
+        owner = rnd.choice(alive) if alive and rnd.random() < 0.8 else None
+        if owner is None:
+            owner = s.conn()
+            ev += ["C%d" % owner, "W%d:%s" % (owner, (AUTH_OK + hello().encode()).hex())]
+            alive.append(owner)
+        w(owner, request_name(s.next_serial(), "c10.act.hang", 4))
+        if rnd.random() < 0.6:
+            leave(owner)                                  # callers whose auto-started call was delivered get NoReply
+        ev.append("S1300")                                # nothing more must happen when the old deadline passes
+    elif shape == "both":
+        ev += ["S600"]
+        for c in list(alive)[:1]:
+            if rnd.random() < 0.5:
+                leave(c)
+        ev += ["S700"]
+    else:
+        ev.append("S600" if shape == "fail" else "S1300")
+    # a second round on the survivors, then everybody leaves
+    if alive and rnd.random() < 0.5:
+        request(rnd.choice(alive), "c10.act.fail")
+        if rnd.random() < 0.5:
+            leave(alive[0])
+        ev.append("S600")
+    for c in list(alive):
+        if rnd.random() < 0.6:
+            ev.append("X%d" % c)
+    d = s.done(ev)
+    d["fresh"] = True
+    d["timed"] = True
+    d["shape"] = shape
+    return d
+
+
 def hand_written():
     """boundary scenarios (also kept in corpus/C10)"""
     rnd = random.Random(0)
@@ -703,13 +788,17 @@ def hand_written():
     one("gate", CFG_BOUND, ["C1", "C2", "C3", "C4", "C5", "C6", "W5:" + p, "W6:" + p, "W1:" + (AUTH_OK + H).hex(), "X2", "W3:" + p, "X5", "X6"])
     one("gate-closed-while-waiting", CFG_BOUND, ["C1", "C2", "C3", "C4", "C5", "W5:" + (AUTH_OK + H + sig(12, "CNRYwaitingroom0")).hex(), "X5", "C6", "W6:" + p, "X1", "X2"])
     one("expire-then-admit", CFG_TIMED, ["C1", "C2", "C3", "C4", "C5", "W5:" + p, "S1400", "S1400"])
+    # finding C10-D2: a client dropped by the bus while an activation is pending sees EOF only when the babysitter exits
+    auto = Msg(METHOD_CALL, 0, 21, {F_PATH: "/a", F_INTERFACE: "c10.A", F_MEMBER: "M", F_DESTINATION: "c10.act.hang"}).encode()
+    one("act-eof-delay", CFG_ACT, ["C1", "W1:" + (AUTH_OK + H).hex(), "W1:" + auto.hex(), "W1:" + (b"\x00" * 16).hex(), "S1300"])
+    out[-1]["fresh"] = True
     return out
 
 
 FAMILIES = [(gen_mutation, 30), (gen_limits, 8), (gen_truncate, 10), (gen_handshake, 14), (gen_prehello, 10), (gen_oversized, 4), (gen_many_unauth, 8)]
 
 
-def generate(rnd, n_plain, n_flood, n_timed, n_blast=0, n_close=0, n_slots=0):
+def generate(rnd, n_plain, n_flood, n_timed, n_blast=0, n_close=0, n_slots=0, n_act=0):
     scripts = hand_written()
     tot = sum(w for _, w in FAMILIES)
     for _ in range(n_plain):
@@ -734,4 +823,6 @@ def generate(rnd, n_plain, n_flood, n_timed, n_blast=0, n_close=0, n_slots=0):
         scripts.append(gen_close(rnd))
     for _ in range(n_slots):
         scripts.append(gen_slots(rnd))
+    for _ in range(n_act):
+        scripts.append(gen_activation(rnd))
     return scripts
